@@ -184,6 +184,17 @@ class FsExecutor(object):
             self.flags.add('append')
         err = None
         mfd = None
+        # the resolved path is the descriptor's path + separator + guest path: when that does not fit the host limit the call is
+        # rejected (any error code) and has no effect; within two bytes of the limit either rejection or the host's answer
+        jl = self._joined_len(dirfd, nb)
+        if jl >= self.PATH_MAX - 2:
+            self.flags.add('path_near_limit')
+            if jl >= self.PATH_MAX:
+                if r == 0:
+                    self.fail('path-accepted:too-long', 'path_open accepted a path whose resolved length %d does not fit the host limit' % jl)
+                return None
+            if r != 0:
+                return None
         try:
             mfd = os.open(self.mpath(dirfd, name), flags, 0o644)
         except OSError as e:
@@ -691,6 +702,34 @@ class FsExecutor(object):
         except OSError:
             pass
 
+    def host_special(self, dirfd, kinds):
+        """the HOST (not the guest) puts objects into a directory that WASI itself cannot create: FIFOs and unix sockets (both
+        listed with the WASI file type 'unknown'), on both sides alike.  Names fifoN / sockN are never opened by any rule (an open of
+        a FIFO blocks); path operations and listings see them like any other entry."""
+        import socket
+        self.record('host_special', dirfd, list(kinds))
+        d = self.fds[dirfd]
+        if d['closed'] or d['kind'] != 'dir':
+            return
+        for i, k in enumerate(kinds):
+            name = ('fifo%d' if k == 'fifo' else 'sock%d') % i
+            for side in (os.path.join(self.real, d['rel']) if d['rel'] else self.real, os.path.join(self.mirror, d['rel']) if d['rel'] else self.mirror):
+                p = os.path.join(side, name)
+                if len(p) > 100 and k != 'fifo':
+                    continue                  # sun_path limit: same decision on both sides (equal root lengths)
+                try:
+                    if k == 'fifo':
+                        os.mkfifo(p)
+                    else:
+                        sk = socket.socket(socket.AF_UNIX)
+                        try:
+                            sk.bind(p)
+                        finally:
+                            sk.close()
+                except OSError:
+                    pass
+        self.flags.add('host_created_fifo_or_socket')
+
     def tree_listing(self):
         out = []
         for dp, dns, fns in os.walk(self.real):
@@ -760,6 +799,14 @@ class FsExecutor(object):
                     self.fail('guest-overwrite', 'fd_readdir wrote past its buffer')
             self.flags.add('readdir_on_vanished_directory')
             return
+        # Python-side lstat calls go through the shortest name of the same directory (the descriptor's own path may be within a few
+        # bytes of the host limit, so that path + '/' + entry name no longer fits)
+        short = os.path.join(self.real, d['rel']) if d['rel'] else self.real
+        try:
+            if os.stat(short).st_ino == os.stat(rdir).st_ino:
+                rdir = short
+        except OSError:
+            pass
         maxname = max([len(os.fsencode(n)) for n in names] + [2])
         bufsize = max(bufsize, 24 + maxname)          # "any buffer size that can hold one entry"
         entries, calls = self._listing(fd, bufsize, 0)
@@ -821,6 +868,10 @@ class FsExecutor(object):
                         self.fail('tree', 'symlink %s differs' % os.path.join(rel, n))
                     continue
                 ms, rs = os.stat(mp), os.stat(rp)
+                if not stat.S_ISREG(ms.st_mode) or not stat.S_ISREG(rs.st_mode):
+                    if stat.S_IFMT(ms.st_mode) != stat.S_IFMT(rs.st_mode):
+                        self.fail('tree', '%s: file type differs from the POSIX mirror' % os.path.join(rel, n))
+                    continue
                 if ms.st_size != rs.st_size:
                     self.fail('content', 'final size of %s: real %d, mirror %d' % (os.path.join(rel, n), rs.st_size, ms.st_size))
                 if ms.st_size <= (1 << 22):
